@@ -6,8 +6,14 @@ def _fields(line):
     return dict(t.split("=", 1) for t in line.split(" ")[1:] if "=" in t)
 
 
+def _mine(line):
+    return " fmt=transfac" in line
+
+
 def _nontrivial_c14(line):
     # distinct files with at least two records or a matrix of width >= 2, read through >= 2 chunkings
+    if not _mine(line):
+        return None
     f = _fields(line)
     if "file" in f:
         return f["file"]
@@ -18,6 +24,8 @@ def _nontrivial_c14(line):
 
 
 def _hist_c14(line):
+    if not _mine(line):
+        return []
     f = _fields(line)
     if "file" in f:
         return ["bundled-file"]
@@ -31,12 +39,16 @@ def _hist_c14(line):
 
 def _nontrivial_c15(line):
     # distinct non-empty byte strings
+    if not _mine(line):
+        return None
     f = _fields(line)
     d = f.get("data", "")
     return (f.get("alpha"), d) if d else None
 
 
 def _hist_c15(line):
+    if not _mine(line):
+        return []
     f = _fields(line)
     d = f.get("data", "")
     n = len(d) // 2
